@@ -89,6 +89,14 @@ def install_check(E, max_violations):
                 inputs = model_inputs(E, E.solver.model())
                 E.violations.append({"kind": "check", "label": label, "inputs": inputs})
                 raise PathAbort()
+            if E.second_solver and E.second_budget > 0:
+                # second opinion on the discharged obligation (cvc5); only a definite 'sat' is a disagreement
+                from .second import recheck
+                E.second_budget -= 1
+                verdict, secs = recheck(E.solver.assertions(), [] if p is True else [p])
+                E.second[verdict] = E.second.get(verdict, 0) + 1
+                if verdict == "sat":
+                    raise Inconclusive("solver disagreement: z3 unsat, cvc5 sat on obligation '%s'" % label)
         E.stats.discharged += 1
     E.do_check = do_check
 
@@ -121,6 +129,7 @@ def explore(E, fn, args, *, initial_work=None, max_paths=None, deadline=None, co
     E.violations = []
     E.reached = {}
     E.fp_uses = []
+    E.second = {}
     stats0 = E.stats
     E.stats = Stats()
     models = []
@@ -187,7 +196,7 @@ def explore(E, fn, args, *, initial_work=None, max_paths=None, deadline=None, co
         "reached": dict(E.reached), "models": models, "completed": completed,
         "pending": [list(t) for t in E.work] if status == "split" else [],
         "wall_s": round(time.time() - t0, 3), "fp_uses": sorted(set(E.fp_uses)),
-        "assumptions": sorted(E.assumptions_used),
+        "assumptions": sorted(E.assumptions_used), "second": dict(E.second),
     }
     E.stats = stats0
     cp1252.clear_caches()
